@@ -163,37 +163,41 @@ func drawStartPos(t *rapid.T) hcl.Pos {
 func TestC14_Tiling(t *testing.T) {
 	hx.Run(t, "C14", "Tiling", 20000,
 		"byte string (G-MUT mutants of valid programs, concatenations, arbitrary bytes biased to multi-byte/combining characters, CR/LF mixtures, templates, heredocs) lexed in all three modes from a random start position; oracle = byte arithmetic + reference line/column counter (newlines and grapheme clusters via go-textseg); non-trivial = input has a multi-byte character and a newline; distinct by input",
-		func(c *hx.Case) {
-			t := c.T
-			text, kind := drawHostileInput(t)
-			src := []byte(text)
-			c.SetBytes("input", []byte(text))
-			c.Class("input_" + kind)
-			start := drawStartPos(t)
-			c.Set("start", fmt.Sprintf("%+v", start))
-			split := false
-			for _, m := range []struct {
-				name string
-				lex  func([]byte, string, hcl.Pos) (hclsyntax.Tokens, hcl.Diagnostics)
-			}{{"LexConfig", hclsyntax.LexConfig}, {"LexExpression", hclsyntax.LexExpression}, {"LexTemplate", hclsyntax.LexTemplate}} {
-				var toks hclsyntax.Tokens
-				c.Guard(m.name, func() { toks, _ = m.lex(src, "t.hcl", start) })
-				if checkTiling(c, m.name, src, toks, start) {
-					split = true
-				}
-			}
-			if split {
-				c.Class("cluster_split_lines")
-			}
-			multi := false
-			for _, b := range src {
-				if b >= 0x80 {
-					multi = true
-				}
-			}
-			c.Done(multi && bytes.ContainsAny(src, "\n"), text)
-		})
+		caseC14Tiling)
 }
+
+func caseC14Tiling(c *hx.Case) {
+	t := c.T
+	text, kind := drawHostileInput(t)
+	src := []byte(text)
+	c.SetBytes("input", []byte(text))
+	c.Class("input_" + kind)
+	start := drawStartPos(t)
+	c.Set("start", fmt.Sprintf("%+v", start))
+	split := false
+	for _, m := range []struct {
+		name string
+		lex  func([]byte, string, hcl.Pos) (hclsyntax.Tokens, hcl.Diagnostics)
+	}{{"LexConfig", hclsyntax.LexConfig}, {"LexExpression", hclsyntax.LexExpression}, {"LexTemplate", hclsyntax.LexTemplate}} {
+		var toks hclsyntax.Tokens
+		c.Guard(m.name, func() { toks, _ = m.lex(src, "t.hcl", start) })
+		if checkTiling(c, m.name, src, toks, start) {
+			split = true
+		}
+	}
+	if split {
+		c.Class("cluster_split_lines")
+	}
+	multi := false
+	for _, b := range src {
+		if b >= 0x80 {
+			multi = true
+		}
+	}
+	c.Done(multi && bytes.ContainsAny(src, "\n"), text)
+}
+
+func FuzzC14_Tiling(f *testing.F) { hx.Fuzz(f, "C14", "Tiling", caseC14Tiling) }
 
 // TestC14_RangeScanner: hcl.RangeScanner ranges tile the input and carry faithful positions.
 func TestC14_RangeScanner(t *testing.T) {
